@@ -7,10 +7,12 @@ package main
 
 import (
 	"bytes"
+	"encoding/json"
 	"fmt"
 	"math/rand"
 	"strings"
 
+	"github.com/wundergraph/graphql-go-tools/v2/pkg/ast"
 	"github.com/wundergraph/graphql-go-tools/v2/pkg/astminify"
 )
 
@@ -70,6 +72,31 @@ func c09MinifyCheck(run *Run, r *rand.Rand, l *fedLayout) {
 			written = body
 		}
 	}
+	c09MinifyEval(run, l, def, written, norm.Vars, u)
+}
+
+// replay of a recorded minification case
+func c09MinifyReplay(run *Run, l *fedLayout, input []byte) bool {
+	var in struct {
+		Minify    bool         `json:"minify"`
+		Operation string       `json:"operation"`
+		Variables string       `json:"variables"`
+		Universe  *fedUniverse `json:"universe"`
+	}
+	if json.Unmarshal(input, &in) != nil || !in.Minify || in.Universe == nil {
+		return false
+	}
+	def, err := c03Definition()
+	if err != nil {
+		return false
+	}
+	c09MinifyEval(run, l, def, in.Operation, in.Variables, in.Universe)
+	run.Count("replay")
+	return true
+}
+
+func c09MinifyEval(run *Run, l *fedLayout, def *ast.Document, written string, vars string, u *fedUniverse) {
+	norm := struct{ Vars string }{vars}
 	in := map[string]any{"minify": true, "operation": written, "variables": norm.Vars, "universe": u}
 	for _, sortAST := range []bool{false, true} {
 		var out bytes.Buffer
